@@ -104,7 +104,9 @@ public:
       }
     auto catalog(mounted->volume()->root());
 
-    int sectors_used = 2;
+    // With no files, the catalogue itself is what is in use (4
+    // sectors on a Watford DFS disc, 2 otherwise).
+    int sectors_used = static_cast<int>(catalog.catalog_sectors());
     const std::vector<DFS::CatalogEntry> entries = catalog.entries();
     for (const auto& entry : entries)
       {
